@@ -105,10 +105,14 @@ def generate(rng: random.Random, cons: dict) -> dict:
     id_style = rng.choice(["contig", "contig", "sparse", "large"])
     if big:
         id_style = "frame_label"
+    elif seg and dtype == "uint16" and rng.random() < 0.4:
+        # ids whose products are multiples of 2**16: arithmetic done in the label dtype wraps
+        id_style = "mult256"
     per_frame = [0] * T
+    pos_int_first = (not seg) and rng.random() < 0.2
     occupied = np.zeros((T, *fshape), dtype=bool)
     nodes: dict = {}
-    nid = 1 if id_style != "large" else rng.randint(200, 900)
+    nid = 256 if id_style == "mult256" else 1 if id_style != "large" else rng.randint(200, 900)
     if not seg and not big and id_style == "contig" and rng.random() < 0.3:
         nid = 0  # node id 0 is an ordinary id without a label array ("if node:" is a classic)
     w["thick3d"] = bool(seg and ndim == 4 and rng.random() < 0.5)
@@ -127,7 +131,12 @@ def generate(rng: random.Random, cons: dict) -> dict:
             nodes[str(nid)] = {"t": t, "pix": [list(c) for c in coords]}
         else:
             nodes[str(nid)] = {"t": t, "pos": [float(rng.randint(0, 2 * s)) / 2 for s in fshape]}
-        if id_style != "frame_label":
+            if pos_int_first:
+                # the first coordinate is a whole number stored as int (a plane or row index)
+                nodes[str(nid)]["pos"][0] = int(nodes[str(nid)]["pos"][0])
+        if id_style == "mult256":
+            nid += 256
+        elif id_style != "frame_label":
             nid += 1 if id_style == "contig" else rng.choice([1, 2, 5, 17])
     w["nodes"] = nodes
     if big:
@@ -201,6 +210,8 @@ def generate(rng: random.Random, cons: dict) -> dict:
     # (a y,x,t stack made time-first with moveaxis), or a strided crop of a larger array
     w["seg_layout"] = rng.choice(["C", "C", "C", "F", "crop"]) if seg else "C"
     # positions handed over as numpy arrays instead of lists (the docstring allows both)
+    # the optional custom feature is registered with a default value other than None
+    w["score_default"] = rng.choice([None, None, 0.5])
     w["pos_array"] = (not seg) and w["pos_mode"] != "per_axis" and rng.random() < 0.25
     return w
 
@@ -280,7 +291,7 @@ def build(w: dict):
         tracks = SolutionTracks(
             g, segmentation=seg, time_attr=tkey, pos_attr=pos_attr, scale=scale, ndim=ndim, **idk
         )
-    register_custom(tracks)
+    register_custom(tracks, w.get("score_default"))
     if w["enable"]:
         tracks.enable_features(list(w["enable"]))
     if w["ids"] == "featuredict":
@@ -294,13 +305,13 @@ def build(w: dict):
     return tracks
 
 
-def register_custom(tracks):
+def register_custom(tracks, score_default=None):
     from funtracks.features import Feature
 
     if "score" not in tracks.features:
         tracks.features["score"] = Feature(
             feature_type="node", value_type="float", num_values=1,
-            display_name="Score", required=False, default_value=None,
+            display_name="Score", required=False, default_value=score_default,
         )
     if "conf" not in tracks.features:
         tracks.features["conf"] = Feature(
